@@ -40,8 +40,9 @@ def run(ck, prog):
         "changes (+1), read on the main loop, and every update_diagnostics call is preceded on the main loop by "
         "a salsa input write, which (salsa contract) waits until every earlier task has dropped its snapshot, "
         "i.e. until after it published - so tasks publish in version order; publishing happens inside the "
-        "closure that owns the snapshot. Not decided: equality with the diagnostics of the final state, "
-        "clearing of files that left the workspace, quiescence.")
+        "closure that owns the snapshot; (R11.4) files that left the workspace are published an empty list; "
+        "(R11.5) Server::set_file_content reaches set_root_file on every path. Not decided: equality with the "
+        "diagnostics of the final state, quiescence.")
     ck.trusted = ["salsa 0.16: an input write waits for all outstanding snapshots", "async-lsp delivers notifications in call order"]
     for r, t in (("R11.1", "every workspace file gets a map entry"), ("R11.2", "every map entry is published"),
                  ("R11.3", "versions are monotone and tasks are serialised by the salsa write")):
@@ -141,6 +142,20 @@ def run(ck, prog):
           "the task publishes an empty list for files handed to it from outside the current result",
           msg="the diagnostics task never publishes an empty list for a file outside the current result: files that left "
               "the workspace are never cleared")
+
+    # ---- R11.5 -------------------------------------------------------------------
+    # the workspace whose diagnostics are published is the one rooted at the document touched last: every didOpen /
+    # didChange re-roots (no "unchanged text" shortcut around AnalysisHost::set_root_file)
+    ck.rule("R11.5", "every document notification re-roots the workspace before diagnostics are recomputed")
+    ssb = prog.body("lsp::server::Server::set_file_content")
+    ck.anchor(ssb is not None, "Server::set_file_content not found")
+    roots = {i for i, tt in ssb.calls() if Body.callee(tt) == "ide::analysis::AnalysisHost::set_root_file"}
+    skip = cfg.path_exists(ssb, 0, lambda y: ssb.term(y)["k"] == "return", avoid=roots, include_src=True)
+    ck.ob("R11.5", "always-reroots", bool(roots) and skip is None,
+          "Server::set_file_content reaches AnalysisHost::set_root_file on every path",
+          msg="Server::set_file_content can return without AnalysisHost::set_root_file%s: the workspace stays rooted at the "
+              "document touched before, update_diagnostics then republishes that workspace and the final state's diagnostics "
+              "never appear" % (" [%s]" % ssb.where(skip[-1]) if skip else ""))
 
     # ---- R11.3 -------------------------------------------------------------------
     ub = prog.body("lsp::server::Server::update_diagnostics")
